@@ -136,6 +136,10 @@ bool Instance::parse_pretend_valid_expr(const char* expr) {
     // COMPILER_CTX.symbolic_outputs = true;
     while (*c) {
         while (*c && *c != ',' && *c != ':') ++c;
+        if (c == p) {
+            fprintf(stderr, "parse error (empty %s) near %s\n", got_sig ? "pubkey" : "signature", p);
+            return false;
+        }
         char* cs = strndup(p, c-p);
         Value v = Value(cs);
         valtype s = v.data_value();
